@@ -34,8 +34,15 @@ def cf1d(ny, nx, *, lat=None, lon=None, ydim='y', xdim='x', lat_name='lat', lon_
     target = coords if as_coords else variables
     target[lat_name] = ((ydim,), lat, la)
     target[lon_name] = ((xdim,), lon, lo)
-    variables.update(data_vars or {})
-    return xarray.Dataset(data_vars=variables, coords=coords, attrs=dict(attrs or {'Conventions': 'CF-1.8'}))
+    return _assemble(variables, coords, data_vars, dict(attrs or {'Conventions': 'CF-1.8'}))
+
+
+def _assemble(variables, coords, data_vars, attrs):
+    """Geometry variables first (as in files written by the models), then data."""
+    ds = xarray.Dataset(data_vars=variables, coords=coords, attrs=attrs)
+    if data_vars:
+        ds = ds.assign({k: (v if isinstance(v, xarray.DataArray) else xarray.Variable(*v)) for k, v in data_vars.items()})
+    return ds
 
 
 def cf2d(ny, nx, *, lat=None, lon=None, ydim='y', xdim='x', lat_name='lat', lon_name='lon',
@@ -58,8 +65,7 @@ def cf2d(ny, nx, *, lat=None, lon=None, ydim='y', xdim='x', lat_name='lat', lon_
     target = coords if as_coords else variables
     target[lat_name] = ((ydim, xdim), lat, la)
     target[lon_name] = ((ydim, xdim), lon, lo)
-    variables.update(data_vars or {})
-    return xarray.Dataset(data_vars=variables, coords=coords, attrs=dict(attrs or {'Conventions': 'CF-1.8'}))
+    return _assemble(variables, coords, data_vars, dict(attrs or {'Conventions': 'CF-1.8'}))
 
 
 def shoc_simple(nj, ni, **kw):
@@ -115,9 +121,8 @@ def shoc_standard(nj, ni, *, node_x=None, node_y=None, face_x=None, face_y=None,
         assert numpy.shape(cx[kind]) == shapes[kind], (kind, numpy.shape(cx[kind]), shapes[kind])
         target[yname] = (dims[kind], cy[kind], dict(units='degrees_north', standard_name='latitude' if kind == 'face' else f'latitude_{kind}'))
         target[xname] = (dims[kind], cx[kind], dict(units='degrees_east', standard_name='longitude' if kind == 'face' else f'longitude_{kind}'))
-    variables.update(data_vars or {})
-    return xarray.Dataset(data_vars=variables, coords=coords,
-                          attrs=dict(attrs or {'Conventions': 'CMR/Timeseries/SHOC', 'ems_version': 'v1.2.3'}))
+    return _assemble(variables, coords, data_vars,
+                     dict(attrs or {'Conventions': 'CMR/Timeseries/SHOC', 'ems_version': 'v1.2.3'}))
 
 
 # --- UGRID -----------------------------------------------------------------
